@@ -75,7 +75,17 @@ pub fn guard<T>(f: impl FnOnce() -> T) -> Result<T, PanicRec> {
 
 /// `src/protocol_types/address.rs` from an absolute or relative panic location.
 pub fn short_file(f: &str) -> String {
-    if let Some(i) = f.find("/src/") {
+    if let Some(i) = f.find("/registry/src/") {
+        // dependency from the cargo registry: <crate-version>/src/file.rs
+        let rest = &f[i + "/registry/src/".len()..];
+        if let Some(j) = rest.find('/') {
+            return rest[j + 1..].to_string();
+        }
+    }
+    if let Some(i) = f.find("/library/") {
+        return f[i + 1..].to_string();
+    }
+    if let Some(i) = f.rfind("/src/") {
         // keep crate dir name for dependencies
         let head = &f[..i];
         let krate = head.rsplit('/').next().unwrap_or("");
